@@ -46,6 +46,7 @@ struct RunOpts {
 	bool accounting_check = false; // C15: never more responses with an id than requests that carried it
 	bool framing_check = false; // C10: accepted byte stream = in-order concatenation of whole generated frames
 	bool ws_check = true;      // C12/C13: handshake answers, close statuses, pongs
+	bool reserve_conn0 = false; // operations with a non-zero connection selector never land on connection 0
 	bool allow_reset_join = false; // a reset racing with deliveries to that connection is a fault (C05/C11 domain)
 	std::set<std::string> ignore_rules; // known findings suppressed by rule id
 };
@@ -241,6 +242,7 @@ public:
 	{
 		if (cc.empty()) return -1;
 		int n = (int)cc.size();
+		if (opt.reserve_conn0 && sel != 0 && n > 1) return 1 + ((((sel - 1) % (n - 1)) + (n - 1)) % (n - 1)); // connection 0 belongs to the witness alone
 		return ((sel % n) + n) % n;
 	}
 
